@@ -16,10 +16,10 @@ maybe theorem tie_swap (i j : Nat) (s : Sys) (h : Inv s.buf)
 maybe /-- the documented panics of `swap`, evaluated directly on the translated body (no invariant needed) -/
 theorem gen_swap_panics_i (s : Sys) (i j : Nat) (hi : ¬ i < s.buf.size) :
     Gen.swap i j s = (.error (.doc "swap_i"), s) := by
-  tie [Gen.swap]
+  first | (tie [Gen.swap]; done) | exact swap_panics_i s i j hi
 maybe theorem gen_swap_panics_j (s : Sys) (i j : Nat) (hi : i < s.buf.size) (hj : ¬ j < s.buf.size) :
     Gen.swap i j s = (.error (.doc "swap_j"), s) := by
-  tie [Gen.swap]
+  first | (tie [Gen.swap]; done) | exact swap_panics_j s i j hi hj
 
 maybe /-- `swap_remove_back`: by unfolding the whole fragment; if the body still is `swap` followed by
 `pop_back`, through the ties of those two -/
